@@ -119,6 +119,11 @@ func main() {
 	for i := 0; i < e.Pick(1, 3); i++ {
 		cases = append(cases, genTypeCases(newShortTypeFixture(e, i))...)
 	}
+	// interface hierarchies: quick = every (type, value) pair on 3 seeded boundary forms,
+	// thorough = 2 fixtures on every boundary form
+	for i := 0; i < e.Pick(1, 2); i++ {
+		cases = append(cases, genHierTypeCases(e, newHierTypeFixture(e, i), e.Pick(3, 0))...)
+	}
 	for i := 0; i < e.Pick(1, 3); i++ {
 		cases = append(cases, genSharedCases(newSharedFixture(e, i))...)
 	}
